@@ -24,7 +24,7 @@ if go test -vet=off -count=1 ${DEMOFLAGS:-} -run "^$T\$" . > $W.mut.txt 2>&1; th
 rm -f zz_demo_test.go
 # 3. checks against the changed tree
 mkdir -p $W.vout
-DET=""
+DET=""; RES=""
 for c in "$@"; do
   OUT=$(VERIF_REPO=$W VERIF_OUT=$W.vout timeout 2400 /verif/bin/artsym3 check $c --tier ${TIER:-quick} 2>&1)
   code=$?
@@ -33,19 +33,30 @@ for c in "$@"; do
   res "check $c -> exit $code | $line"
   [ -n "$det" ] && res "$det"
   [ $code -eq 1 ] && DET="$DET $c"
+  RES="$RES $c=$code"
 done
 res "detected-by:$DET"
 mkdir -p /verif/seeded/$NAME
 cp $SRC/out/patch.diff $SRC/out/demo_test.go /verif/seeded/$NAME/
-python3 - "$NAME" "$SRC" "$W.log" "$CLEAN" "$SUITE" "$MUT" "$DET" "$*" <<'PY'
-import json,sys
-name,src,log,clean,suite,mut,det,checks=sys.argv[1:9]
+python3 - "$NAME" "$SRC" "$W.log" "$CLEAN" "$SUITE" "$MUT" "$DET" "$*" "$RES" <<'PY'
+import json,sys,os
+name,src,log,clean,suite,mut,det,checks,res=sys.argv[1:10]
+old={}
+try: old=json.load(open('/verif/seeded/%s/meta.json'%name))
+except Exception: pass
 try: meta=json.load(open(src+'/out/meta.json'))
 except Exception as e: meta={"summary":"(meta.json unreadable: %s)"%e}
 meta['name']=name
 meta['confirmed']={"demo_passes_on_clean_tree":clean=='ok',"existing_suite_passes_with_change":suite=='ok',"demo_fails_with_change":mut=='ok'}
-meta['checks_run']=checks.split()
-meta['detected_by']=det.split()
+# latest outcome per check (exit code of the quick tier against the changed tree: 1 = VIOLATION, 0 = not flagged, 2 = inconclusive)
+results=dict(old.get('results',{}))
+for c in old.get('checks_run',[]):
+    results.setdefault(c, 1 if c in old.get('detected_by',[]) else 0)
+for kv in res.split():
+    c,code=kv.split('='); results[c]=int(code)
+meta['results']=results
+meta['checks_run']=sorted(results)
+meta['detected_by']=sorted(c for c,v in results.items() if v==1)
 meta['what_i_ran']=open(log).read().splitlines()
 json.dump(meta,open('/verif/seeded/%s/meta.json'%name,'w'),indent=1)
 PY
